@@ -10,7 +10,7 @@ UNITS = {
                 desc="serial u64 field backend: FieldElement51 kernels against integer arithmetic mod p"),
     "FG": dict(engine="verus", template="contracts/fg.vx", props=["C01", "C11", "C05"], rlimit=40,
                desc="field.rs over the abstract field interface: ct_eq, is_negative, is_zero, pow22501, invert, pow_p58, sqrt_ratio_i, invsqrt"),
-    "CONST64": dict(engine="verus", template="contracts/const64.vx", props=["C12", "C05"], rlimit=300,
+    "CONST64": dict(engine="verus", template="contracts/const64.vx", props=["C12", "C05", "C17"], rlimit=300,
                     desc="every literal constant and table entry of the u64 serial backend + constants.rs, by(compute) against definitions"),
     "CONST32": dict(engine="verus", template="contracts/const32.vx", props=["C12", "C05"], rlimit=300,
                     desc="same for the u32 serial backend (never compiled on this host)"),
